@@ -512,3 +512,51 @@ def ref_volume(rd: RefdomInfo) -> Fraction:
     return {"RefLine": Fraction(1), "RefTri": Fraction(1, 2),
             "RefTet": Fraction(1, 6), "RefQuad": Fraction(1),
             "RefHex": Fraction(1), "RefWedge": Fraction(1, 2)}[rd.name]
+
+
+# ----------------------------------------------------------------------
+# exact separating-axis test for convex polytopes given by their vertices
+
+def _cross(a, b):
+    return (a[1] * b[2] - a[2] * b[1], a[2] * b[0] - a[0] * b[2],
+            a[0] * b[1] - a[1] * b[0])
+
+
+def _axes(A, B):
+    d = len(A[0])
+    dirs = lambda P: [tuple(q[k] - p[k] for k in range(d))  # noqa: E731
+                      for p, q in combinations(P, 2)]
+    dA, dB = dirs(A), dirs(B)
+    if d == 1:
+        return [(Fraction(1),)]
+    if d == 2:
+        return [(v[1], -v[0]) for v in dA + dB]
+    out = []
+    for P in (dA, dB):
+        for u, v in combinations(P, 2):
+            out.append(_cross(u, v))
+    for u in dA:
+        for v in dB:
+            out.append(_cross(u, v))
+    return out
+
+
+def interiors_overlap(A, B) -> bool:
+    """True iff the convex hulls of the point sets A and B have
+    intersecting interiors (separating axis theorem, exact)."""
+    d = len(A[0])
+    for n in _axes(A, B):
+        if all(x == 0 for x in n):
+            continue
+        pa = [sum(n[k] * p[k] for k in range(d)) for p in A]
+        pb = [sum(n[k] * p[k] for k in range(d)) for p in B]
+        if max(pa) <= min(pb) or max(pb) <= min(pa):
+            return False
+    return True
+
+
+def first_overlap(cells):
+    for (i, a), (j, b) in combinations(list(enumerate(cells)), 2):
+        if interiors_overlap(a, b):
+            return i, j
+    return None
